@@ -65,7 +65,9 @@ partial def build (pol : Pol) (regs : Array (Option Id)) (h : Heap) (j : Json) (
       | _ => throw "empty register in source"
     | _ => throw "bad reg"
   else if let some (.str s) := optField j "s" then
-    if pol.varexp && s.contains '$' then funmodelled
+    -- under VarExp a string holding an expression is stored unevaluated (the generator's expressions are well formed)
+    if pol.varexp && (s.splitOn "${").length > 1 then pure (h ++ [⟨parent, field, .prim "dyn" s⟩], h.length)
+    else if pol.varexp && s.contains '$' then funmodelled
     else pure (h ++ [⟨parent, field, .prim "string" s⟩], h.length)
   else if let some (.str s) := optField j "u" then pure (h ++ [⟨parent, field, .prim "uint" s⟩], h.length)
   else if let some (.str s) := optField j "i" then
@@ -90,6 +92,11 @@ partial def build (pol : Pol) (regs : Array (Option Id)) (h : Heap) (j : Json) (
           | .arr #[.str _, .str tag, v] => some (tag, v)
           | _ => none)
       | _, _ => none
+    -- a Go map holds a key once: of the pairs of a map source the last one counts (struct sources are taken as they are)
+    let entries := match optField j "m", entries with
+      | some _, some es => some ((es.reverse.foldl (fun (acc : List (String × Json)) (kv : String × Json) =>
+          if acc.any (·.1 == kv.1) then acc else kv :: acc) []))
+      | _, e => e
     match entries with
     | none => funmodelled
     | some es => do
@@ -125,7 +132,7 @@ partial def mergeCfgDiag (pol : Pol) (h : Heap) (to frm : Id) : FR Heap := do
         hh := setBody h1 to (.sub (dictSet td k c) ta)
       | some (_, o) =>
         let on ← fnodeAt hh o
-        if isNilPrim on || isNilPrim vn then funmodelled
+        if unsettled on vn then funmodelled
         if fIsSub on && fIsSub vn then
           hh ← mergeCfgDiag pol hh o v
         else
@@ -152,7 +159,7 @@ partial def mergeCfgDiag (pol : Pol) (h : Heap) (to frm : Id) : FR Heap := do
       let v := fa[i]!
       let on ← fnodeAt hh o
       let vn ← fnodeAt hh v
-      if isNilPrim on || isNilPrim vn then funmodelled
+      if unsettled on vn then funmodelled
       if fIsSub on && fIsSub vn then
         hh ← mergeCfgDiag pol hh o v
       else
@@ -182,6 +189,17 @@ def fSegsOf (name : String) (idx : Int) (sep : Bool) : List String :=
 
 def stepChild (h : Heap) (id : Id) (seg : String) : Option Id :=
   if allDigits seg then childAt h id seg.toNat! else childNamed h id seg
+
+/-- does the walk along `segs` meet an unevaluated expression (the node itself included)?  Go evaluates it and goes on in
+the configuration it refers to: not described here -/
+def meetsDyn (h : Heap) : Id → List String → Bool
+  | id, segs =>
+    (match h[id]? with | some n => isDynNode n | none => false) ||
+    (match segs with
+     | [] => false
+     | s :: r => match stepChild h id s with
+       | some c => meetsDyn h c r
+       | none => false)
 
 def fwalk (h : Heap) (id : Id) : List String → Option Id
   | [] => some id
@@ -278,6 +296,7 @@ def forestStep (h : Heap) (regs : Array (Option Id)) (op : Json) : FR (Heap × A
     ofSetRes h regs (setPathH h (regId r) segs (.prim k v))
   | "remove" =>
     let segs := fSegsOf name idx pol.pathSep
+    if meetsDyn h (regId r) segs.dropLast then funmodelled
     match segs.reverse with
     | [] => funmodelled
     | last :: revInit =>
@@ -291,6 +310,7 @@ def forestStep (h : Heap) (regs : Array (Option Id)) (op : Json) : FR (Heap × A
         else pure (dictDel h cont last, regs)
   | "child" =>
     let segs := fSegsOf name idx pol.pathSep
+    if meetsDyn h (regId r) segs then funmodelled
     match fwalk h (regId r) segs with
     | none => pure (h, regs)
     | some c =>
